@@ -107,8 +107,17 @@ func (c *Collection) noteForeignCas(txn *sql.Tx, newCas CAS) error {
 	if err != nil {
 		return err
 	}
+	if bucketLastCas, err := c.bucket.getLastCas(txn); err != nil {
+		return err
+	} else if newCas > bucketLastCas {
+		// (the bucket's high-water mark, which seeds the clock on reopen, must never go backwards)
+		if _, err = txn.Exec(`UPDATE bucket SET lastCas=?1`, newCas); err != nil {
+			return err
+		}
+	}
 	if newCas > lastCas {
-		return c.setLastCas(txn, newCas)
+		_, err = txn.Exec(`UPDATE collections SET lastCas=?1 WHERE id=?2`, newCas, c.id)
+		return err
 	}
 	// The document now has a CAS at or below what the views have indexed, so "cas > lastCas" would
 	// never pick it up: make the collection's views re-index from scratch.
